@@ -396,7 +396,7 @@ theorem extract_package_total (p : Package) (es : List Acc.FileEntry) (a : Bytes
 `/decoy/link` → `file`; `/target` is vacant -/
 def jail : Fs :=
   ⟨[([], .dir 0o755), ([nDecoy], .dir 0o755), ([nDecoy, nFile], .file nDecoy 0o644), ([nDecoy, nDir], .dir 0o750),
-    ([nDecoy, nLink], .symlink nFile)], []⟩
+    ([nDecoy, nLink], .symlink nFile)], [], 0o022⟩
 
 theorem jail_vacant : ∀ q, [nTarget] <+: q → jail.get q = none := by
   intro q hq
@@ -817,7 +817,7 @@ def xFes : List (FileE × Bytes) := [(xD, []), (xF, [1, 2, 3]), (xL, [])]
 def xCfg : Cfg := { C06.sampleCfg with files := [xD, xF, xL], directories := [[47], [47, 100, 47]], compression := .none }
 def xArchive : Bytes := C09.archiveFor xCfg 0 0 xFes
 def xBuilt : Package := build xCfg 1700000000 (Pipeline.hexOf C10.tSha256) xArchive xArchive
-def rootFs : Fs := ⟨[([], .dir 0o755)], []⟩
+def rootFs : Fs := ⟨[([], .dir 0o755)], [], 0o022⟩
 
 example : benign (builtInput xCfg xFes) = true := by decide
 theorem x_variant : Acc.getPayloadCompressorVariant xBuilt.md.header = .ok payloadCompressorDefault := by
